@@ -57,7 +57,15 @@ CHECKS["C15"] = (
     "frame<->phase, strand group/order laws and the real Codon class on all 4096 IUPAC triplets by CrossHair.",
     "Trusted: Bio.Data.CodonTable / IUPACData as reference tables; z3 5.1 (cvc5 1.4 cross-check); CrossHair for the laws.",
     "DESIGN.md §3 C15")
-for _p in ["C03", "C04", "C07", "C08", "C09", "C10", "C11", "C13", "C17", "C18",
+CHECKS["C18"] = (
+    "bounded symbolic execution (CrossHair): the dictionary's key subset and insertion ORDER are symbolic; inputs are realised at the dict/regex boundary and the solver closes the finite order space",
+    "extract_feature_name_id is run on EVERY ordered selection of <=3 (quick) / 4 (thorough) keys from a 14-key catalogue (all "
+    "recognised keys in mixed case, look-alikes, note) against the documented priority spec; extract_feature_types on every ordered "
+    "pair/triple of a 12-key catalogue; merge_qualifiers on every pair of catalogue dictionaries (union, sorted, no aliasing). "
+    "The rank-0 override (F1) is excluded by its exact region and replayed.",
+    _NOTE + " The GenBank-record-permutation and gff3.parser clauses are outside the claim (modules not importable here).",
+    "DESIGN.md §3 C18")
+for _p in ["C03", "C04", "C07", "C08", "C09", "C10", "C11", "C13", "C17",
            "C19", "C20"]:
     NOT_APPLICABLE[_p] = "check not built yet (build in progress; see DESIGN.md §3 for the planned solver-based check)"
 NOT_APPLICABLE["C12"] = ("GenBank writer cannot emit a feature on the installed Biopython (SeqFeature(strand=) TypeError), the "
